@@ -1521,18 +1521,20 @@ class BADS:
                     ysd_vec[i_sample] = y_sd
 
                 if yval_vec.size == 1:
-                    yval_vec = np.vstack((yval_vec, self.yval))
                     if self.options["specify_target_noise"]:
-                        ysd_vec = np.vstack(
-                            (
-                                ysd_vec,
-                                self.function_logger.S[
-                                    self.function_logger.Xn
-                                    if f_idx is None
-                                    else f_idx
-                                ],
-                            )
+                        # (repeated observations of a point are merged in the
+                        # log: value and SD come from the same, current record)
+                        idx_prev = (
+                            self.function_logger.Xn if f_idx is None else f_idx
                         )
+                        yval_vec = np.vstack(
+                            (yval_vec, self.function_logger.Y[idx_prev])
+                        )
+                        ysd_vec = np.vstack(
+                            (ysd_vec, self.function_logger.S[idx_prev])
+                        )
+                    else:
+                        yval_vec = np.vstack((yval_vec, self.yval))
 
                 self.optim_state["yval_vec"] = np.copy(yval_vec)
                 self.optim_state["ysd_vec"] = np.copy(ysd_vec)
